@@ -269,6 +269,13 @@ func (fv *FuncVerifier) frameGoal(name, sortS string, cur Term) (Term, bool) {
 	}
 	r := Term{"r!f", SInt}
 	conds := []Term{Lt(r, fv.pre.hwm)}
+	if strings.HasPrefix(name, "LK_") {
+		// lock/once state lives at sub-object references (negative): a sub-object of an object
+		// allocated by this activation is not part of the caller's state
+		if _, ok := fv.enc.funs["subowner"]; ok {
+			conds = append(conds, Or(Ge(r, I(0)), Lt(app(SInt, "subowner", r), fv.pre.hwm)))
+		}
+	}
 	for _, o := range objs {
 		conds = append(conds, Not(Eq(r, o)))
 	}
@@ -414,6 +421,17 @@ func lemmaAxiom(enc *Enc, lm *Lemma) Term {
 		ens = append(ens, env.evalB(r.E))
 	}
 	body := Implies(And(req...), And(ens...))
+	if len(lm.Triggers) > 0 {
+		var pats []string
+		for _, trig := range lm.Triggers {
+			var ts []string
+			for _, e := range trig {
+				ts = append(ts, env.eval(e).L[0].S)
+			}
+			pats = append(pats, ":pattern ("+strings.Join(ts, " ")+")")
+		}
+		return Term{"(forall (" + strings.Join(binders, " ") + ") (! " + body.S + " " + strings.Join(pats, " ") + "))", SBool}
+	}
 	return Term{"(forall (" + strings.Join(binders, " ") + ") " + body.S + ")", SBool}
 }
 
